@@ -158,3 +158,134 @@ def obligations(chk):
         verify(chk, "centre_of_gravity.stack-and-scale[%s]" % ("thresholded" if thresholded else "threshold=0"), CN + ":centre_of_gravity", run_sv, post_sv, clause="cog.stack-scale",
                replay=lambda m, thresholded=thresholded: {"thresholded": thresholded, "H": num(m.eval(H, model_completion=True)), "W": num(m.eval(W, model_completion=True)), "B": num(m.eval(B, model_completion=True))},
                encoding="Sigma rules (Fubini, linearity) + extreme-term witnesses", skip_defs=("divisor non-zero",), frame=True)
+
+
+def brightest_obligations(chk):
+    """brightest_pixel: a frame inside a stack (one or two leading axes) gives exactly what the frame alone gives, for every image size,
+    stack depth and fraction selecting at least two pixels.  numpy.sort is an uninterpreted order-statistic functional of each row's contents
+    (npmodel._np_sort): the per-frame level of the stack path and the level of the 2-d path are then the same term, the upper clip at the
+    (different) maxima is the identity by the maxima's defining bounds, and the centroid sums are related by the Fubini rule."""
+    b0, b1, B2 = z3.Ints("b0 b1 B2")
+    frac = z3.Real("frac")
+    for lead_n in (1, 2):
+        def run(it, lead_n=lead_n):
+            it.ctx.assume(z3.And(H >= 1, W >= 1, B >= 1, B2 >= 1, b0 >= 0, b0 < B, b1 >= 0, b1 < B2, frac > 0, frac < 1, frac * z3.ToReal(H * W) >= 2))
+            img = sym_arr("img", ([B] if lead_n == 1 else [B, B2]) + [H, W], prov={"img"})
+            frame = npmodel.getitem(it, img, (b0,) if lead_n == 1 else (b0, b1))
+            o_stack = it.call_repo(CN, "brightest_pixel", [img, frac])
+            o_frame = it.call_repo(CN, "brightest_pixel", [frame, frac])
+            return it, o_stack, o_frame
+
+        def post(pr, lead_n=lead_n):
+            it, o_stack, o_frame = pr.value
+            lead = [b0] if lead_n == 1 else [b0, b1]
+            ok = isinstance(o_stack, Arr) and o_stack.ndim == 1 + lead_n and isinstance(o_frame, Arr) and o_frame.ndim == 1
+            goals = [("result-ranks", z3.BoolVal(ok))]
+            if not ok:
+                return goals
+            for comp, nm in ((0, "x"), (1, "y")):
+                es, ef = zr(o_stack.get([comp] + lead)), zr(o_frame.get([comp]))
+                ext_terms = npmodel.find_extremes(it, es) + npmodel.find_extremes(it, ef)
+                exh = npmodel.extreme_chain_instances(it, ext_terms)
+                ss, sf = sigma.find_sums(es), sigma.find_sums(ef)
+                shape_ok = len(ss) == 2 and len(sf) == 2
+                goals.append(("%s.structure: two sums per quotient" % nm, z3.BoolVal(shape_ok)))
+                if not shape_ok:
+                    continue
+                hy = list(exh)
+                for k in range(2):
+                    o, h = sigma.fubini(it.ctx, sf[k], ss[k])
+                    rj, _ = sigma.instantiate(it.ctx, sf[k])
+                    if len(rj) != 2:
+                        goals.append(("%s.sum%d.frame-sum-is-joint" % (nm, k), z3.BoolVal(False)))
+                        continue
+                    vy, vx = rj[0][0], rj[1][0]
+                    # the maxima bound every element: instantiated at the summation index (upper clip = identity)
+                    eb = []
+                    for t in ext_terms:
+                        rank = len(it.ctx.extremes[t.sexpr()].shape)
+                        eb.append(npmodel.extreme_bound(it, t, (lead if rank == 2 + lead_n else []) + [vy, vx]))
+                    goals += [("%s.stack-vs-frame.sum%d.%s" % (nm, k, n_), g, {"hyps": exh + eb}) for n_, g in o]
+                    hy.append(h)
+                goals.append(("%s.stack-item-equals-single-frame" % nm, z3.Implies(ss[1] != 0, es == ef), {"hyps": hy}))
+            return goals
+        verify(chk, "brightest_pixel.stack-item=frame[%d leading ax%s]" % (lead_n, "is" if lead_n == 1 else "es"), CN + ":brightest_pixel,centre_of_gravity", run, post, clause="brightest",
+               replay=lambda m, lead_n=lead_n: {"lead": lead_n, "H": num(m.eval(H, model_completion=True)), "W": num(m.eval(W, model_completion=True)), "B": num(m.eval(B, model_completion=True))},
+               encoding="order statistic of numpy.sort uninterpreted (function of the row's contents); Sigma rule Fubini; maxima by their defining bounds",
+               skip_defs=("divisor non-zero",))       # the divisor is the flux above the level: the clause is stated for frames where it is non-zero
+
+
+def _ordstats(e):
+    """applications of the order-statistic functionals (npmodel._np_sort) in a term"""
+    out, seen, st = [], set(), [e]
+    while st:
+        t = st.pop()
+        if not z3.is_expr(t) or t.get_id() in seen:
+            continue
+        seen.add(t.get_id())
+        if z3.is_app(t) and t.decl().name().startswith("OrdStat_"):
+            out.append(t)
+        st.extend(t.children())
+    return out
+
+
+def brightest_scale_obligations(chk):
+    """brightest_pixel is unchanged when the image is multiplied by a positive constant c (stack path, every size / depth / fraction).
+    Library contract used (assumed, A-NP): sorting commutes with multiplication by c > 0, i.e. every order statistic of c*a is c times
+    that of a - instantiated for the one level term of each path.  Everything else (the subtraction, both clips, the maxima, the
+    centroid sums) is the real code."""
+    b0 = z3.Int("b0")
+    frac, c = z3.Reals("frac c")
+
+    def run(it):
+        it.ctx.assume(z3.And(H >= 1, W >= 1, B >= 1, b0 >= 0, b0 < B, frac > 0, frac < 1, frac * z3.ToReal(H * W) >= 2, c > 0))
+        img = sym_arr("img", [B, H, W], prov={"img"})
+        scaled = Arr([B, H, W], lambda idx: zr(img.get(idx)) * c, "float", prov={"img2"})
+        return it, it.call_repo(CN, "brightest_pixel", [img, frac]), it.call_repo(CN, "brightest_pixel", [scaled, frac])
+
+    def post(pr):
+        it, o_s, o_c = pr.value
+        ok = isinstance(o_s, Arr) and o_s.ndim == 2 and isinstance(o_c, Arr) and o_c.ndim == 2
+        goals = [("result-ranks", z3.BoolVal(ok))]
+        if not ok:
+            return goals
+        for comp, nm in ((0, "x"), (1, "y")):
+            es, ec = zr(o_s.get([comp, b0])), zr(o_c.get([comp, b0]))
+            ext_terms = npmodel.find_extremes(it, es) + npmodel.find_extremes(it, ec)
+            exh = npmodel.extreme_chain_instances(it, ext_terms)
+            ss, sc = sigma.find_sums(es), sigma.find_sums(ec)
+            shape_ok = len(ss) == 2 and len(sc) == 2
+            goals.append(("%s.structure: two sums per quotient" % nm, z3.BoolVal(shape_ok)))
+            if not shape_ok:
+                continue
+            hy = list(exh)
+            for k in range(2):
+                (ry, by_), (ry2, by2) = sigma.instantiate(it.ctx, sc[k]), sigma.instantiate(it.ctx, ss[k])
+                in_c, in_s = sigma.find_sums(by_), sigma.find_sums(by2)
+                if not (len(in_c) == 1 and len(in_s) == 1 and len(ry) == 1 and len(ry2) == 1):
+                    goals.append(("%s.scale.sum%d.nested-structure" % (nm, k), z3.BoolVal(False)))
+                    continue
+                yv, yv2 = ry[0][0], ry2[0][0]
+                (rxc, bxc), (rxs, bxs) = sigma.instantiate(it.ctx, in_c[0]), sigma.instantiate(it.ctx, in_s[0])
+                xv, xv2 = rxc[0][0], rxs[0][0]
+                oc_, os_ = _ordstats(bxc), _ordstats(bxs)
+                one_level = len(oc_) == 1 and len(os_) == 1
+                goals.append(("%s.scale.sum%d.one-level-term-per-path" % (nm, k), z3.BoolVal(one_level)))
+                if not one_level:
+                    continue
+                homog = [oc_[0] == c * os_[0]]        # A-NP: order statistics are positively homogeneous (instance)
+                eb = [npmodel.extreme_bound(it, t, [b0, yv, xv]) for t in ext_terms if len(it.ctx.extremes[t.sexpr()].shape) == 3]
+                o1, h1 = sigma.ext(it.ctx, in_c[0], in_s[0], factor=c)
+                o1 = [(n_, z3.substitute(g, (yv2, yv), (xv2, xv))) for n_, g in o1]
+                h1 = z3.substitute(h1, (yv2, yv))
+                goals += [("%s.scale.sum%d.inner.%s" % (nm, k, n_), z3.Implies(sigma.in_range(ry), g), {"hyps": exh + homog + eb}) for n_, g in o1]
+                o2, h2 = sigma.ext(it.ctx, sc[k], ss[k], factor=c)
+                goals += [("%s.scale.sum%d.outer.%s" % (nm, k, n_), g, {"hyps": exh + homog + [z3.Implies(sigma.in_range(ry), h1)]}) for n_, g in o2]
+                hy.append(h2)
+            goals.append(("%s.unchanged-by-positive-scaling" % nm, z3.Implies(ss[1] != 0, ec == es), {"hyps": hy}))
+        return goals
+    verify(chk, "brightest_pixel.scale[stack]", CN + ":brightest_pixel,centre_of_gravity", run, post, clause="brightest",
+           replay=lambda m: {"H": num(m.eval(H, model_completion=True)), "W": num(m.eval(W, model_completion=True)), "B": num(m.eval(B, model_completion=True))},
+           encoding="order statistic uninterpreted + positive-homogeneity instance (library contract); Sigma linearity; maxima by their defining bounds",
+           skip_defs=("divisor non-zero",))
+    chk.math_lemmas.append("numpy.sort commutes with multiplication by a positive constant (sort(c a) = c sort(a), c > 0): assumed library contract, used as one instance per path")
